@@ -121,7 +121,10 @@ def record_diff(a, b, opts, views=True, timeout=8.0):
             # root's may later attach its own zero-cost self-match, which overwrites ret.edit)
             edit = ret.edit_list[0] if getattr(ret, "edit_list", None) else ret.edit
             if edit is None:
-                raise Inconclusive("diff() attached no edit to the root")
+                # diff() left the root of the annotated tree without an edit: the script is then taken from the edit API
+                # on the same (editable) tree, and the views below report what the annotated tree itself says - if the
+                # documents differ, its cost (0) disagrees with the script's
+                edit = ret.edits(b)
             tighten_fully(edit)
             ft, tt = Table(ret), Table(b)
             fl = Flattener(ft, tt)
